@@ -10,3 +10,4 @@ import BV.C16.ScriptRoundtrip
 import BV.C16.KeysLemmas
 import BV.C16.TaprootLemmas
 import BV.C16.PubKeyLemmas
+import BV.C16.Base58AlgoLemmas
